@@ -211,20 +211,27 @@ type ribSys struct {
 	do       map[string]func()
 }
 
-func newRibSys(fib string, prefixes []string) *ribSys {
+func newRibSys(fib string, prefixes []string, origins []uint64, flags []uint64) *ribSys {
 	s := &ribSys{fib: fib, prefixes: prefixes, do: map[string]func(){}}
 	add := func(n string, f func()) { s.ops = append(s.ops, explore.Op{Name: n}); s.do[n] = f }
 	for _, p := range prefixes {
 		p := p
 		for _, f := range []uint64{1, 2} {
 			f := f
-			for _, fl := range []uint64{0, 1, 2} {
-				fl := fl
-				add(fmt.Sprintf("Reg(%s,f%d,fl%d)", p, f, fl), func() {
-					table.Rib.AddEncRoute(nm(p), &table.Route{FaceID: f, Origin: 0, Cost: 1, Flags: fl})
-				})
+			for _, o := range origins {
+				o := o
+				os := ""
+				if len(origins) > 1 {
+					os = fmt.Sprintf(",o%d", o)
+				}
+				for _, fl := range flags {
+					fl := fl
+					add(fmt.Sprintf("Reg(%s,f%d%s,fl%d)", p, f, os, fl), func() {
+						table.Rib.AddEncRoute(nm(p), &table.Route{FaceID: f, Origin: o, Cost: 1, Flags: fl})
+					})
+				}
+				add(fmt.Sprintf("Unreg(%s,f%d%s)", p, f, os), func() { table.Rib.RemoveRouteEnc(nm(p), f, o) })
 			}
-			add(fmt.Sprintf("Unreg(%s,f%d)", p, f), func() { table.Rib.RemoveRouteEnc(nm(p), f, 0) })
 		}
 	}
 	for _, f := range []uint64{1, 2} {
@@ -262,6 +269,30 @@ func (s *ribSys) Apply(_ any, op explore.Op) []report.Violation {
 	}
 	if len(extra) > 0 {
 		v = append(v, report.Violation{Clause: "C08.rib", Key: "RIB keeps dead nodes after " + last, Detail: fmt.Sprintf("RIB tree nodes %v lie on no path to an entry with routes (entries with routes: %v)", extra, live)})
+	}
+	// state of a removed face is reclaimed: right after the face teardown no RIB route and no FIB next
+	// hop of that face is left
+	var down uint64
+	if n, _ := fmt.Sscanf(op.Name, "FaceDown(f%d)", &down); n == 1 {
+		var left []string
+		for _, n := range table.VerifDumpRib() {
+			for _, r := range strings.Split(n.Routes, ",") {
+				if strings.HasPrefix(r, fmt.Sprintf("f%d/", down)) {
+					left = append(left, "RIB "+n.Path+" "+r)
+				}
+			}
+		}
+		nodes, _ := table.VerifDumpFib(table.FibStrategyTable)
+		for _, n := range nodes {
+			for _, h := range strings.Split(n.Nexthops, ",") {
+				if strings.HasPrefix(h, fmt.Sprintf("%d:", down)) {
+					left = append(left, "FIB "+n.Path+" "+h)
+				}
+			}
+		}
+		if len(left) > 0 {
+			v = append(v, report.Violation{Clause: "C08.rib", Key: "routes / next hops of a removed face survive the face teardown", Detail: fmt.Sprintf("after %s: %v", op.Name, left)})
+		}
 	}
 	// the FIB underneath must stay minimal as well
 	for _, x := range fibLeaks(s.fib, last) {
@@ -379,7 +410,11 @@ func buildTables(cfg string) explore.System {
 	case "fib":
 		return newFibSys(f[1], []string{"/", "/a", "/a/b", "/a/b/c", "/a/x"})
 	case "rib":
-		return newRibSys(f[1], []string{"/", "/a", "/a/b/c", "/a/x"})
+		return newRibSys(f[1], []string{"/", "/a", "/a/b/c", "/a/x"}, []uint64{0}, []uint64{0, 1, 2})
+	case "rib2o":
+		// several routes of one face under different origins at one prefix (per-origin removal,
+		// face teardown with more than one route per prefix)
+		return newRibSys(f[1], []string{"/a", "/a/b/c"}, []uint64{0, 128, 65}, []uint64{1})
 	case "cs":
 		var c int
 		fmt.Sscan(f[1], &c)
